@@ -21,8 +21,11 @@ Holds(ff) ==
          /\ (m.decided /\ ff # <<0, 0, 0, 0>> => m.kmax = MaxAbs(k))
          /\ DetInvariant(ff, g, F, G, Fbad, G0) = (SchoolDet(ff, g, F, G) = SchoolDet(ff, g, Fbad, G0))
          /\ LET mb == MultipleOf(ff, g, VecSub(F, Fbad), VecSub(G, G0)) IN (mb.decided /\ g # <<0, 0, 0, 0>>) => ~mb.holds
-Init == f \in Vec4(Box)
-Next == UNCHANGED f
+\* two-level fan-out (root -> 16 shards -> jobs) so that all workers share the jobs
+JobSeq == SetToSeq(Vec4(Box))
+Init == f = <<-100>>
+Next == \/ f = <<-100>> /\ \E k \in 0..15 : f' = <<-200, k>>
+        \/ f[1] = -200 /\ \E i \in 1..Len(JobSeq) : i % 16 = f[2] /\ f' = JobSeq[i]
 Spec == Init /\ [][Next]_f
-Theorems == Holds(f)
+Theorems == f[1] \in {-100, -200} \/ Holds(f)
 =====================================================================
